@@ -228,12 +228,27 @@ func c13MakeFault(r *runner.Rng, t *term.Term, g *term.Gen) *c13Fault {
 			case 2:
 				bad = &term.Term{K: term.KField, Op: "ID", Sub: []*term.Term{id("NilIt")}, T: term.IntT}
 				target, cls = bad, "runtime-nil-field"
+				if r.Bool() {
+					// a chain of selectors: the failing one is not the last
+					inner := &term.Term{K: term.KField, Op: "Next", Sub: []*term.Term{id("NilIt")}, T: term.PItemT}
+					mid := inner
+					if r.Bool() {
+						mid = &term.Term{K: term.KField, Op: "Next", Sub: []*term.Term{inner}, T: term.PItemT}
+					}
+					bad = &term.Term{K: term.KField, Op: "ID", Sub: []*term.Term{mid}, T: term.IntT}
+					target = inner
+				}
 			case 3:
 				bad = &term.Term{K: term.KMethod, Op: "Label", Sub: []*term.Term{id("NilIt")}, T: term.StrT}
 				target, cls = bad, "runtime-panicking-method"
 			case 4:
 				bad = &term.Term{K: term.KField, Op: "Name", Sub: []*term.Term{id("NilIt")}, T: term.StrT}
 				target, cls = bad, "runtime-nil-field"
+				if r.Bool() {
+					inner := &term.Term{K: term.KField, Op: "Next", Sub: []*term.Term{id("NilIt")}, T: term.PItemT}
+					bad = &term.Term{K: term.KField, Op: "Name", Sub: []*term.Term{inner}, T: term.StrT}
+					target = inner
+				}
 			case 5:
 				bad = rawCall("Div", id("A"), id("Z"))
 				bad.T = term.IntT
